@@ -488,9 +488,16 @@ func runIbbws(r *common.Run) {
 	n := 0
 	for _, cfg := range cfgs {
 		for _, c := range ibbwCorpus {
+			if len(r.Failures) >= 60 || r.Hist["ibbw-bad"] >= 6 {
+				return // a broken tree costs several watchdogs per history
+			}
+			nf := len(r.Failures)
 			r.Mark("case ibbw-corpus %d", n)
 			n++
 			runIbbw(r, cfg, strings.Split(c, ","), "ibbw-corpus")
+			if len(r.Failures) > nf {
+				r.Hist["ibbw-bad"]++
+			}
 		}
 	}
 	bin := findDriver(r.Dir)
